@@ -11,7 +11,7 @@ from concurrent.futures import ProcessPoolExecutor
 
 VERIF = os.path.dirname(os.path.dirname(os.path.abspath(__file__)))
 sys.path.insert(0, VERIF)
-BENIGN = os.path.join(VERIF, "benign")
+BENIGN = os.environ.get("BENIGN_DIR") or os.path.join(VERIF, "benign")
 
 
 def one(sid):
